@@ -89,7 +89,8 @@ def strategies(profile, max_ops=40):
         if kind in ('activate', 'mark_deleted'):
             return st.tuples(st.just(kind), small).map(list)
         if kind == 'deactivate':
-            return st.tuples(st.just('deactivate'), small, st.sampled_from(['deactivated', 'preempted', 'activation_timeout'])).map(list)
+            return st.tuples(st.just('deactivate'), small, st.sampled_from(['deactivated', 'preempted', 'activation_timeout']),
+                             st.sampled_from([False, False, False, True])).map(list)
         if kind == 'schedule':
             return st.tuples(st.just('schedule'), st.integers(0, 12), small).map(list)
         if kind == 'schedule_any':
